@@ -830,32 +830,69 @@ pub fn c10builtins(repo: &Path) -> Result<String, String> {
         out.push_str(&emit(&w, "StringChars_slice", "(s : Str) (i j : USz)", "Option Str", &fb.block)?);
     }
     {
-        // StringLines::slice has two `for` loops over one iterator: hand-modelled
-        // (`StringLines_slice_model`); its validation prefix is still tied here.
-        let fb = find::func(&string, "slice", Some("StringLines"))?;
-        let first = fb.block.stmts.first().map(|s| s.to_token_stream().to_string().replace(' ', "")).unwrap_or_default();
-        if first != "letnum=j.checked_sub(i)?;" {
-            return Err(format!("StringLines::slice: expected `let num = j.checked_sub(i)?;` first, found `{first}`"));
-        }
-        let idx: Vec<String> = {
-            struct Ix(Vec<String>);
-            impl<'ast> Visit<'ast> for Ix {
-                fn visit_expr_index(&mut self, i: &'ast syn::ExprIndex) {
-                    self.0.push(i.to_token_stream().to_string().replace(' ', ""));
+        // StringLines::slice: transliterated statement by statement.  Its two loops have the shape
+        //     let mut CUR = INIT; for _ in A..B { let idx = IT.next()?; CUR = idx; }
+        // (a manual skip/take that answers `None` when the iterator runs dry); each is read as
+        //     let (CUR, IT) = str_advance(IT, A, B, INIT)?;        (`Str.advanceR`, Model/Builtins)
+        // and the newline-offset iterator expression is named (`Str.after_newlines`: `byte + 1` is bounded by
+        // the string's length).  Everything else — the `checked_sub`, the optional end offset, the `num == 0`
+        // early return, `chain`, the final `&s[start_idx..end_idx]` — is the source's.  Any other loop shape
+        // fails extraction.
+        let mut fb = find::func(&string, "slice", Some("StringLines"))?;
+        let it = "s.match_indices('\\n').map(|(byte, _)| byte + 1)";
+        replace(&mut fb.block, &[(it, "str_after_newlines(s)"), ("s.ends_with('\\n')", "str_ends_with_nl(s)"),
+            ("Some(s.len())", "Some(str_byte_len(s))"), ("RotoString::new(\"\")", "str_empty"), ("self.0.0", "s")],
+            &[(it, 1), ("s.ends_with('\\n')", 1), ("Some(s.len())", 1), ("self.0.0", 2)], "StringLines_slice")?;
+        let norm = |x: &dyn ToTokens| x.to_token_stream().to_string().replace(' ', "");
+        let mut stmts: Vec<Stmt> = vec![];
+        let src = fb.block.stmts.clone();
+        let mut k = 0;
+        let mut loops = 0;
+        while k < src.len() {
+            if let (Stmt::Local(l), Some(Stmt::Expr(Expr::ForLoop(fl), _))) = (&src[k], src.get(k + 1)) {
+                // `let mut CUR = INIT;` followed by the loop
+                let cur = match &l.pat { Pat::Ident(pi) if pi.mutability.is_some() => pi.ident.to_string(), _ => String::new() };
+                let init = l.init.as_ref().map(|i| norm(&i.expr)).unwrap_or_default();
+                let (a, b) = match &*fl.expr {
+                    Expr::Range(r) if matches!(r.limits, syn::RangeLimits::HalfOpen(_)) => match (&r.start, &r.end) {
+                        (Some(a), Some(b)) => (norm(a), norm(b)),
+                        _ => return Err("StringLines::slice: loop range without both ends".into()),
+                    },
+                    other => return Err(format!("StringLines::slice: loop over `{}`", norm(other))),
+                };
+                let body: Vec<String> = fl.body.stmts.iter().map(|s| norm(s)).collect();
+                let iter_name = body.first().and_then(|s| s.strip_prefix("letidx=")).and_then(|s| s.strip_suffix(".next()?;")).unwrap_or("").to_string();
+                let ok = !cur.is_empty() && norm(&fl.pat) == "_" && body.len() == 2 && !iter_name.is_empty()
+                    && iter_name.chars().all(|c| c.is_alphanumeric() || c == '_') && body[1] == format!("{cur}=idx;");
+                if !ok {
+                    return Err(format!("StringLines::slice: loop not of the skip/take shape: let mut {cur} = {init}; for {} in {a}..{b} {{ {} }}", norm(&fl.pat), body.join(" ")));
                 }
+                let st = format!("let ({cur}, {iter_name}) = str_advance({iter_name}, {a}, {b}, {init})?;");
+                stmts.push(syn::parse_str::<Stmt>(&st).map_err(|e| format!("StringLines::slice: {e}"))?);
+                loops += 1;
+                k += 2;
+                continue;
             }
-            let mut v = Ix(vec![]);
-            v.visit_block(&fb.block);
-            v.0
-        };
-        if idx != ["self.0.0[start_idx..end_idx]"] {
-            return Err(format!("StringLines::slice: index expressions changed: {idx:?}"));
+            if matches!(&src[k], Stmt::Expr(Expr::ForLoop(_), _) | Stmt::Expr(Expr::While(_), _) | Stmt::Expr(Expr::Loop(_), _)) {
+                return Err("StringLines::slice: a loop that is not preceded by `let mut CUR = INIT;`".into());
+            }
+            stmts.push(src[k].clone());
+            k += 1;
         }
-        let loops = fb.block.stmts.iter().filter(|s| matches!(s, Stmt::Expr(Expr::ForLoop(_), _))).count();
         if loops != 2 {
-            return Err(format!("StringLines::slice: expected two for loops, found {loops}"));
+            return Err(format!("StringLines::slice: expected two skip/take loops, found {loops}"));
         }
-        out.push_str("def StringLines_slice (dbg : Bool) (s : Str) (i j : USz) : Res (Option Str) :=\n StringLines_slice_model s i j\n\n");
+        let w4 = W { cx: RefCell::new(base_cx()), self_methods: BTreeMap::new(), counter: RefCell::new(0) };
+        {
+            let mut cx = w4.cx.borrow_mut();
+            for (r, l) in [("str_after_newlines", "Str.after_newlines"), ("str_ends_with_nl", "Str.ends_with_nl"),
+                ("str_byte_len", "Str.byteLen"), ("str_empty", "Str.empty"), ("str_advance", "Str.advanceR")] {
+                cx.paths.insert(r.into(), l.into());
+            }
+            cx.methods.insert("chain".into(), Meth::Pure("Str.chain_opt".into()));
+        }
+        let blk = syn::Block { brace_token: Default::default(), stmts };
+        out.push_str(&emit(&w4, "StringLines_slice", "(s : Str) (i j : USz)", "Option Str", &blk)?);
     }
 
     // ------------------------------------------------------ src/value/list.rs
